@@ -27,6 +27,9 @@ CLAIMED = {
  "C07": ("proptest: templates (identity, wrapping, random token mixes) over real captures at generated site indentations vs. O-template, an independent reference of the template language and the indentation arithmetic (reference model + identity round-trip)",
          "Randomised exploration: 2x10^4 (quick) to 5x10^5 (thorough) (template, capture, site) cases in all languages; replacement must equal the reference byte for byte when captures are well indented, verbatim modulo leading spaces otherwise; rewriting a node to its own pattern must be a no-op.",
          "Trusted: bindings come from the construction of the pattern (C02 decides that the implementation binds the same spans); spaces-only indentation, lines within the 512-byte look-behind.", "DESIGN.md §5 C07"),
+ "C09": ("proptest: generated projects and LSP notification histories (model-based: URI -> highest version/text) through the real CLI, test runner and language server; oracle = equality of normalised finding multisets across front ends + history invariant on the last publication",
+         "Randomised exploration through the real binaries: 120 (quick) to 2x10^3 (thorough) projects, each compared across 7 front ends (3 JSON styles, stdin, GitHub format, sg test verdicts both ways, LSP didOpen) plus an LSP history of up to 17 notifications (sequential and burst delivery) checked against the model's highest version.",
+         "Trusted: the JSON stream output as the reference multiset (C16 checks it against the bytes); harness-side LSP client; burst delivery explores, but does not enumerate, handler interleavings.", "DESIGN.md §5 C09"),
  "C10": ("proptest: generated edit histories vs. fresh-parse reference + independent raw tree-sitter incremental chain (differential), shrinking to replay files",
          "Randomised exploration: thousands of generated edit histories per run over all 23 languages; after every step the document text must equal the O-splice model and, when the text parses error-free, the tree must equal a fresh parse (a divergence that an independent, correctly driven tree-sitter incremental chain reproduces exactly is the listed tree-sitter known finding). No absence claim.",
          "Trusted: tree-sitter's fresh parse as reference; the harness's own InputEdit chain; the property is only asserted at error-free steps.", "DESIGN.md §5 C10"),
